@@ -257,10 +257,53 @@ def zst_zone(args):
     return zone, {'items': len(items), 'transitions': ntr, 'problems': problems}
 
 
+def datasets(flavour):
+    """several generators alive in one process: the data set of each holds exactly the zones it was given, with the items a
+    fresh generator computes for that zone and range, whatever other generators did before or after"""
+    G = gen_class(flavour)
+    problems = []
+
+    def snap(g):
+        return {z: [(it['epoch'], it['type']) for it in items] for z, items in g.test_data.items()}
+
+    def fresh(zone, a, b):
+        items = G(start_year=a, until_year=b, sampling_interval=22)._create_test_items_for_zone(zone)
+        return [(it['epoch'], it['type']) for it in items]
+    g1 = G(start_year=2003, until_year=2006, sampling_interval=22)
+    g1.create_test_data(['America/Los_Angeles', 'Europe/London'])
+    s1 = snap(g1)
+    g2 = G(start_year=2012, until_year=2014, sampling_interval=22)
+    g2.create_test_data(['America/Los_Angeles', 'Asia/Tokyo'])
+    s2 = snap(g2)
+    if snap(g1) != s1:
+        problems.append('the data set of a generator for 2003..2006 changed when another generator (2012..2014) was run: zones %s -> %s' % (sorted(s1), sorted(snap(g1))))
+    for g, a, b, zones, nm in ((g1, 2003, 2006, ['America/Los_Angeles', 'Europe/London'], 'first'), (g2, 2012, 2014, ['America/Los_Angeles', 'Asia/Tokyo'], 'second')):
+        cur = snap(g)
+        if sorted(cur) != sorted(zones):
+            problems.append('the %s generator was given %s, its data set holds %s' % (nm, zones, sorted(cur)))
+        for z in zones:
+            if z in cur and cur[z] != fresh(z, a, b):
+                problems.append('the %s generator: items of %s differ from those of a fresh generator for %d..%d' % (nm, z, a, b))
+        vd = g.get_validation_data()
+        if vd['start_year'] != a or vd['until_year'] != b or sorted(vd['test_data']) != sorted(cur):
+            problems.append('validation data of the %s generator: range %s..%s, zones %s' % (nm, vd['start_year'], vd['until_year'], sorted(vd['test_data'])))
+    g1.create_test_data(['Europe/Paris'])
+    if sorted(snap(g1)) != ['Europe/Paris']:
+        problems.append('a second create_test_data() on one generator: data set holds %s, given [Europe/Paris]' % sorted(snap(g1)))
+    if snap(g2) != s2:
+        problems.append('the data set of the second generator changed when the first one was run again')
+    return {'problems': problems, 'items': sum(len(v) for v in s1.values()) + sum(len(v) for v in s2.values())}
+
+
 def main():
     mode = sys.argv[1]
     spec = json.load(open(sys.argv[2]))
     out = {}
+    if mode == 'datasets':
+        out = datasets(spec['flavour'])
+        json.dump(out, open(sys.argv[3], 'w'))
+        print('ok')
+        return
     with multiprocessing.Pool(os.cpu_count()) as pool:
         if mode == 'replay':
             jobs = [(spec['flavour'], spec['year'], c) for c in spec['cases']]
